@@ -90,8 +90,11 @@ theorem childEffect_frame (mode : Mode) (prog : Prog) (oc : Outcome) (fs : FS P)
     split
     · exact FS.get_set_ne fs _ hpo
     · split
-      · exact FS.get_set_ne fs _ hpo
       · rfl
+      · split
+        · rfl
+        · exact FS.get_set_ne fs _ hpo
+        · exact FS.get_erase_ne fs hpo
 
 theorem childOut_congr (mode : Mode) (prog : Prog) (fs gs : FS P) (inp : List P)
     (h : ∀ p ∈ inp, fs.get p = gs.get p) : childOut mode prog fs inp = childOut mode prog gs inp := by
@@ -113,8 +116,11 @@ theorem childEffect_congr (mode : Mode) (prog : Prog) (oc : Outcome) (fs gs : FS
     split
     · rw [FS.get_set, FS.get_set, childOut_congr mode prog fs gs inp hin, hp]
     · split
-      · rw [FS.get_set, FS.get_set, hp]
       · exact hp
+      · split
+        · exact hp
+        · rw [FS.get_set, FS.get_set, hp]
+        · rw [FS.get_erase, FS.get_erase, hp]
 
 /-- frame: a step changes nothing outside the write set -/
 theorem step_frame (env : Env P) (W F : P → Prop) (s : DState P) (fs : FS P) (hin : Inside env W F s)
